@@ -310,6 +310,7 @@ func runC07(c *Ctx) {
 	ruleDotStructure(c) // error exits keep the automaton state: a reader that has failed does not report end-of-file next time
 	rulePipeClose(c)
 	ruleNoPositiveAfterShortCopy(c)
+	rulePipeCreatedOnce(c)
 	ruleWriteDeadlineOwner(c)     // a client that stalls in mid-message times out: no reply disarms (or re-arms) the read deadline
 	ruleNoCommandWhileDataOpen(c) // the client never completes a body it failed to copy: textproto ends an open dot-writer on the next command
 	// a chunk the server threw away for exceeding the size limit ends the transfer: otherwise a later "BDAT 0 LAST"
@@ -370,4 +371,22 @@ func ruleBdatReaderIsPipe(c *Ctx) {
 		})
 	}
 	R.Ob("(*Conn).handleBdat/delivery calls found", c.P.Pos(f.Pos()), n >= 2, fmt.Sprintf("%d Data/LMTPData calls in the BDAT delivery", n))
+}
+
+// rulePipeCreatedOnce (C07; the same obligations are part of C05's R-bdat-one-call): the pipe and the delivery
+// goroutine are created only while no transfer is open. A second pipe for the same message replaces the field that
+// reset()/Close() abort: the first reader is orphaned and never reports that the transfer was abandoned.
+func rulePipeCreatedOnce(c *Ctx) {
+	R := c.R
+	R.Rule("R-pipe-created-once", "E3 edge-feasibility", "io.Pipe and the go statement of handleBdat are unreachable while Conn.bdatPipe != nil", 2)
+	for _, site := range c.Sites(lPipe) {
+		c.obUnreach("io.Pipe", site, aPipeOpen)
+	}
+	if f := c.A.Func("(*Conn).handleBdat"); f != nil {
+		allInstrs(f, func(in ssa.Instruction) {
+			if _, ok := in.(*ssa.Go); ok {
+				c.obUnreach("go delivery", in, aPipeOpen)
+			}
+		})
+	}
 }
